@@ -326,3 +326,39 @@ type QObs struct {
 
 // QueueExec is set by the harness: runs ops on a fresh queue of the given kind and parameters.
 var QueueExec func(kind string, params []int, ops []QOp) []QObs
+
+// ---- election protocol driver (C12): real ArbiterManager objects, message delivery decided by the explorer
+
+type ArbMember struct {
+	Weight  uint32 `json:"w"`
+	Arbiter bool   `json:"a,omitempty"`
+	Log     int    `json:"l"` // ordinal of the member's log position (larger = newer; the ids wrap between 1 and 2)
+}
+
+type ArbSpec struct {
+	Name       string      `json:"name"`
+	Members    []ArbMember `json:"members"`
+	Candidates []int       `json:"cands"`
+	Down       [][2]int    `json:"down,omitempty"` // links that are offline for the whole run
+	Rounds     int         `json:"rounds"`         // candidacies per candidate (retry after a failure)
+	MaxLoss    int         `json:"maxloss"`        // at most this many lost requests / lost replies per history
+}
+
+// ArbEvent decides the fate of one pending request, named "from>to:METHOD:n".
+type ArbEvent struct {
+	Msg  string `json:"m"`
+	Fate string `json:"f"` // deliver | lose | deliver-lose-reply
+}
+
+type ArbObs struct {
+	Key     string   // canonical state after the history ("" if the history is not executable)
+	Pending []string // names of the requests awaiting a decision
+	Viol    []string // "sig|message"
+	Winners []string // candidates whose commit round gathered a majority: "c<idx>-><host>"
+	Log     []string
+	Losses  int
+	Err     string
+}
+
+// ArbExec is set by the harness; it must be called inside a vrt run.
+var ArbExec func(spec ArbSpec, hist []ArbEvent) ArbObs
